@@ -126,3 +126,68 @@ Definition match_globs (gs : list glob) : bool :=
       let first := g_hit g0 in
       fold_left (fun m g => if g_neg g then m && negb (g_hit g) else m || (first && g_hit g)) rest first
   end.
+
+(* ---- the conflict toggles and the operator_paused ToggleSet -------------------------------
+   Every peering key owns one Toggle (Ensemble.conflicts_found[key]) made by
+   `operator_paused.make_toggle(...)` in spawn_missing_peerings (pre-activated when peering is mandatory);
+   terminate_redundancies drops the toggles of the removed keys from operator_paused:
+       redundant_flags = ensemble.get_flags(redundant_keys)      -- read BEFORE del_keys
+       await ensemble.operator_paused.drop_toggles(redundant_flags)
+       ensemble.del_keys(redundant_keys)
+   A toggle is (key, serial number): a key that goes and comes back gets a new toggle.  Whether a toggle is
+   on (a live peer of higher/equal priority, or still pre-activated) is an input, not modelled here. *)
+
+Definition tog := (key * nat)%type.
+
+Definition tog_eqb (a b : tog) : bool := key_eqb (fst a) (fst b) && Nat.eqb (snd a) (snd b).
+Definition mem_tog (t : tog) (l : list tog) : bool := existsb (tog_eqb t) l.
+
+Record tens := { te : ens;                 (* the task maps and the keys of conflicts_found *)
+                 flags : list tog;         (* conflicts_found: key -> toggle *)
+                 pset : list tog;          (* operator_paused._toggles, without the `peering CRD is missing` toggle *)
+                 fresh : nat }.            (* serial number of the next toggle *)
+
+Definition tens0 : tens := {| te := ens0; flags := []; pset := []; fresh := 0 |}.
+
+(* Ensemble.get_flags(keys) *)
+Definition get_flags (i : insights) (fl : list tog) : list tog := filter (fun t => redundant i (fst t)) fl.
+
+Definition tterminate (i : insights) (t : tens) : tens :=
+  let dropped := get_flags i (flags t) in
+  {| te := terminate i (te t);
+     flags := filter (fun f => negb (redundant i (fst f))) (flags t);
+     pset := filter (fun f => negb (mem_tog f dropped)) (pset t);
+     fresh := fresh t |}.
+
+(* `conflicts_found[dkey] = ...` replaces an entry of the same key *)
+Definition tspawn_step (t : tens) (k : key) : tens :=
+  if mem_key k (peerings (te t)) then t
+  else let f := (k, fresh t) in
+       {| te := spawn_peering_step (te t) k;
+          flags := f :: filter (fun g => negb (key_eqb (fst g) k)) (flags t);
+          pset := f :: pset t;
+          fresh := S (fresh t) |}.
+
+Definition tspawn_peerings (i : insights) (t : tens) : tens :=
+  fold_left tspawn_step (wanted (peering i) (namespaces i)) t.
+
+Definition tadjust (i : insights) (t : tens) : tens :=
+  let t1 := tspawn_peerings i (tterminate i t) in
+  {| te := spawn_watchers i (te t1); flags := flags t1; pset := pset t1; fresh := fresh t1 |}.
+
+Definition trun_adjust (hs : list insights) : tens := fold_left (fun t i => tadjust i t) hs tens0.
+
+(* ensemble.peering_missing.turn_to(settings.peering.mandatory and not peering_resources) *)
+Definition peering_missing (mandatory : bool) (i : insights) : bool :=
+  mandatory && match peering i with [] => true | _ => false end.
+
+(* operator_paused.is_on() = any(...): `onk` are the keys whose toggle is on *)
+Definition paused_on (mandatory : bool) (i : insights) (onk : list key) (t : tens) : bool :=
+  peering_missing mandatory i || existsb (fun f => mem_key (fst f) onk) (pset t).
+
+(* what the property allows: some CURRENT peering reports a conflict *)
+Definition blocked_by_current (mandatory : bool) (i : insights) (onk : list key) (t : tens) : bool :=
+  peering_missing mandatory i || existsb (fun k => mem_key k onk) (peerings (te t)).
+
+Definition togs_sub (a b : list tog) : bool := forallb (fun t => mem_tog t b) a.
+Definition togs_same (a b : list tog) : bool := togs_sub a b && togs_sub b a.
